@@ -165,6 +165,36 @@ Proof.
   cbn in Hk. inversion Hk as [r1 r2 E| | |]. discriminate E.
 Qed.
 
+(** *** where the secrets come from, in the source as it is now (extensions/hmac_secret.rs, lists regenerated on every run)
+
+    The noninterference theorems above treat the two stored PRF secrets as independent random draws ([ERand]) that reach
+    the outside only through [EHmac] results.  That is what the source does: each secret is assigned from [random_vec]
+    and nothing else (no hash, no HMAC, no other secret is mentioned where a secret is made), a ceremony that evaluates
+    the PRF draws and stores nothing, and the effects of extension processing are exactly those of the model. *)
+From Coq Require Import String.
+From PK Require Auth.SkeletonFacts Auth.gen.Skeleton Auth.OrderList.
+Theorem c06_secret_provenance_in_source :
+(  filter SkeletonFacts.is_effect_mark (Skeleton.SRC_MAKE_HMAC_SECRET ++ Skeleton.SRC_CALCULATE_HMAC_SECRET) = SkeletonFacts.expand "MakeExt"
+  /\ filter SkeletonFacts.is_effect_mark Skeleton.SRC_CALCULATE_HMAC_SECRET = SkeletonFacts.expand "GetExt"
+  /\ OrderList.before "CredWithUv" "Rand" Skeleton.SRC_MAKE_HMAC_SECRET = true
+  /\ OrderList.before "CredWithoutUv" "WithoutUvCfg" Skeleton.SRC_MAKE_HMAC_SECRET = true
+  /\ OrderList.first_pos "Hmac" Skeleton.SRC_MAKE_HMAC_SECRET = None /\ OrderList.first_pos "Sha256" Skeleton.SRC_MAKE_HMAC_SECRET = None
+  /\ OrderList.first_pos "CalcHmac" Skeleton.SRC_MAKE_HMAC_SECRET = None
+  /\ OrderList.first_pos "Rand" Skeleton.SRC_CALCULATE_HMAC_SECRET = None /\ OrderList.first_pos "Rand" Skeleton.SRC_GET_PRF = None
+  /\ OrderList.first_pos "Rand" Skeleton.SRC_MAKE_PRF = None
+  /\ OrderList.first_pos "Update" Skeleton.SRC_GET_PRF = None /\ OrderList.first_pos "Save" Skeleton.SRC_GET_PRF = None
+  /\ OrderList.first_pos "Update" Skeleton.SRC_CALCULATE_HMAC_SECRET = None
+  /\ OrderList.before "Err UserVerificationBlocked" "Hmac" Skeleton.SRC_CALCULATE_HMAC_SECRET = true)%string.
+Proof. exact SkeletonFacts.source_secret_provenance. Qed.
+Theorem c06_extension_source_is_the_modelled_one :
+  Skeleton.SRC_MAKE_HMAC_SECRET = SkeletonFacts.EXP_MAKE_HMAC_SECRET /\ Skeleton.SRC_MAKE_PRF = SkeletonFacts.EXP_MAKE_PRF
+  /\ Skeleton.SRC_GET_PRF = SkeletonFacts.EXP_GET_PRF /\ Skeleton.SRC_CALCULATE_HMAC_SECRET = SkeletonFacts.EXP_CALCULATE_HMAC_SECRET
+  /\ Skeleton.SRC_SELECT_SALTS = SkeletonFacts.EXP_SELECT_SALTS.
+Proof.
+  exact (conj SkeletonFacts.src_make_hmac_secret_order (conj SkeletonFacts.src_make_prf_order (conj SkeletonFacts.src_get_prf_order
+        (conj SkeletonFacts.src_calculate_hmac_secret_order SkeletonFacts.src_select_salts_order)))).
+Qed.
+
 Print Assumptions c06_prel_get_info.
 Print Assumptions c06_prel_make_credential.
 Print Assumptions c06_prel_get_assertion.
@@ -186,3 +216,5 @@ Print Assumptions c06_debug_passkey.
 Print Assumptions c06_attested_key.
 Print Assumptions c06_attested_cose_labels.
 Print Assumptions c06_attested_cose_bytes.
+Print Assumptions c06_secret_provenance_in_source.
+Print Assumptions c06_extension_source_is_the_modelled_one.
